@@ -15,8 +15,11 @@ import itertools
 import json
 import re
 
+import math
+
 import vlib
 from vlib import proof_coverage
+import floatcheck as fc
 
 LEVEL = "proof"
 TYS = ["nat", "int", "float", "bool"]
@@ -112,7 +115,7 @@ def hugr_eval(tree, env):
     if tree.startswith("const:"):
         v = tree[6:]
         if "." in v:
-            raise NotImplementedError
+            return float(v)
         return int(v) % M64
     m = re.match(r"([\w.]+)\((.*)\)(#\d)?$", tree, re.S)
     if not m:
@@ -128,6 +131,16 @@ def hugr_eval(tree, env):
     if name == "tuple":
         return tuple(hugr_eval(a, env) for a in args)
     vs = [hugr_eval(a, env) for a in args]
+    if name == "unwrap":
+        return vs[0]
+    if name in ("arithmetic.conversions.trunc_s", "arithmetic.conversions.trunc_u"):
+        f = vs[0]
+        lo, hi = (-H64, H64) if name.endswith("_s") else (0, M64)
+        if not math.isfinite(f) or not lo <= int(f) < hi:
+            raise Panic()
+        return int(f) % M64
+    if name in fc.FLOAT_OPS:
+        return fc.FLOAT_OPS[name](*vs)
     short = name.split(".")[-1]
     ext = name.rsplit(".", 1)[0]
     if ext == "tket.bool":
@@ -189,10 +202,21 @@ def split_top(s):
     return parts
 
 
-BOUND = {"int": [0, 1, -1, 2, -2, 7, -7, -8, 63, 64, H64 - 1, -H64, -H64 + 1, 3037000500],
-         "nat": [0, 1, 2, 7, 63, 64, H64 - 1, H64, H64 + 2, M64 - 1], "bool": [False, True]}
-PYOPS = {"Add": lambda x, y: x + y, "Sub": lambda x, y: x - y, "Mult": lambda x, y: x * y, "FloorDiv": lambda x, y: x // y,
-         "Mod": lambda x, y: x % y, "Pow": lambda x, y: pow(x, y, M64), "LShift": lambda x, y: x << y, "RShift": lambda x, y: x >> y,
+BOUND = {"int": [0, 1, -1, 2, -2, 3, 7, -7, -8, 63, 64, H64 - 1, -H64, -H64 + 1, 3037000500, 2**53 + 1, 27021597764222979],
+         "nat": [0, 1, 2, 3, 7, 63, 64, H64 - 1, H64, H64 + 2, M64 - 1, 2**53 + 1, 27021597764222979], "bool": [False, True],
+         "float": [0.0, -0.0, 1.0, -1.0, 0.1, -0.1, 0.5, 2.5, -2.5, 3.0, 7.5, 1e-320, 1e308, 9007199254740992.0,
+                   1e16, 123456789.125, float("inf"), float("-inf"), float("nan")]}
+def py_pow(x, y):
+    if isinstance(x, float) or isinstance(y, float):
+        r = x ** y
+        if isinstance(r, complex):
+            raise ValueError("complex")
+        return r
+    return pow(x, y, M64)
+
+
+PYOPS = {"Div": lambda x, y: x / y, "Add": lambda x, y: x + y, "Sub": lambda x, y: x - y, "Mult": lambda x, y: x * y, "FloorDiv": lambda x, y: x // y,
+         "Mod": lambda x, y: x % y, "Pow": py_pow, "LShift": lambda x, y: x << y, "RShift": lambda x, y: x >> y,
          "BitOr": lambda x, y: x | y, "BitXor": lambda x, y: x ^ y, "BitAnd": lambda x, y: x & y, "Eq": lambda x, y: x == y,
          "NotEq": lambda x, y: x != y, "Lt": lambda x, y: x < y, "LtE": lambda x, y: x <= y, "Gt": lambda x, y: x > y,
          "GtE": lambda x, y: x >= y}
@@ -201,11 +225,11 @@ PYOPS = {"Add": lambda x, y: x + y, "Sub": lambda x, y: x - y, "Mult": lambda x,
 def in_dom(op, x, y):
     if isinstance(x, bool) or isinstance(y, bool):
         return op in ("BitOr", "BitXor", "BitAnd", "Eq", "NotEq")
-    if op in ("FloorDiv", "Mod", "divmod") and y == 0:
+    if op in ("FloorDiv", "Mod", "divmod", "Div") and y == 0:
         return False
     if op in ("LShift", "RShift") and not 0 <= y < 64:
         return False
-    if op in ("Pow", "pow") and (y < 0 or y > 4096 and abs(x) > 1):
+    if op in ("Pow", "pow") and not isinstance(x, float) and not isinstance(y, float) and (y < 0 or y > 4096 and abs(x) > 1):
         return False
     return True
 
@@ -221,15 +245,15 @@ def py_result(kind, op, xs):
     elif kind == "abs":
         r = abs(xs[0])
     elif kind == "conv":
-        r = {"int": int, "nat": int, "bool": bool}[op](xs[0])
+        r = {"int": int, "nat": int, "bool": bool, "float": float}[op](xs[0])
     elif kind == "pow":
-        r = pow(xs[0], xs[1], M64)
+        r = py_pow(xs[0], xs[1])
     elif kind == "divmod":
         r = divmod(*xs)
-    if isinstance(r, bool):
+    if isinstance(r, (bool, float)):
         return r
     if isinstance(r, tuple):
-        return tuple(v % M64 for v in r)
+        return tuple(v if isinstance(v, float) else v % M64 for v in r)
     return r % M64
 
 
@@ -238,8 +262,6 @@ def search(app_id, params, tree):
     parts = app_id.split(":")
     kind = parts[0] if parts[0] in ("not", "abs", "conv", "pow", "divmod") else ("bin" if parts[0] in BIN else "un")
     op = parts[1] if kind == "conv" else parts[0]
-    if any(p == "float" for p in params) or (kind == "conv" and parts[1] == "float"):
-        return []
     diffs = []
     for xs in itertools.product(*[BOUND[p] for p in params]):
         if len(xs) == 2 and not in_dom(op, xs[0], xs[1]):
@@ -250,17 +272,26 @@ def search(app_id, params, tree):
             continue
         if kind == "bin" and isinstance(xs[0], bool) and op not in ("BitOr", "BitXor", "BitAnd", "Eq", "NotEq"):
             continue
-        env = [x if isinstance(x, bool) else x % M64 for x in xs]
-        exp = py_result(kind, op, list(xs))
+        if kind == "conv" and isinstance(xs[0], float):
+            f = xs[0]
+            if op in ("int", "nat") and not (math.isfinite(f) and ((-H64 <= int(f) < H64) if op == "int" else (0 <= int(f) < M64))):
+                continue          # float -> int conversion out of range: outside the property
+        env = [x if isinstance(x, (bool, float)) else x % M64 for x in xs]
+        try:
+            exp = py_result(kind, op, list(xs))
+        except (OverflowError, ValueError, ZeroDivisionError, TypeError):
+            continue              # Python's result is not defined on these operands
         try:
             got = hugr_eval(tree, env)
         except Panic:
             got = "panic"
+        except fc.Skip:
+            continue
         except NotImplementedError:
             return diffs
         if isinstance(got, int) and not isinstance(got, bool) and isinstance(exp, bool):
             got = bool(got)
-        if got != exp:
+        if not fc.same(got, exp):
             diffs.append((xs, exp, got))
     return diffs
 
@@ -287,6 +318,58 @@ def known_region(app_id, xs):
     if cmp and (t1, t2) == ("int", "nat"):
         return y >= H64
     return False
+
+
+def in_documented(a, xs, got):
+    try:
+        return fc.same(fc.documented(a["id"], a["params"], list(xs)), got)
+    except (fc.Skip, OverflowError, ValueError, ZeroDivisionError):
+        return False
+
+
+def keystr(x):
+    if isinstance(x, bool):
+        return str(x)
+    if isinstance(x, float):
+        return repr(x)
+    return str(int(x))
+
+
+def spec_validation(ctx, n):
+    """Float64.v's Python-side functions (and the PrimFloat primitives) vs the real CPython"""
+    r = vlib.rng(ctx.seed, "C04-floatspec")
+    cases = fc.spec_cases(r, n)
+    files = {f"fspec{k}": fc.spec_file(cases[k:k + 400]) for k in range(0, len(cases), 400)}
+    outs = ctx.coq_eval_many(files, timeout=600)
+    bad = 0
+    for k in range(0, len(cases), 400):
+        vals = vlib.parse_coq_values(outs[f"fspec{k}"])[0]
+        for c, v in zip(cases[k:k + 400], vals):
+            if list(v) != list(c[2]):
+                bad += 1
+                if bad <= 3:
+                    ctx.report(f"float-spec:{c[0]}", "correspondence", "Float64.v Python-side spec vs CPython",
+                               {"case": c[0], "coq": [str(x) for x in v], "cpython": [str(x) for x in c[2]],
+                                "meaning": "the Coq definition of Python's float semantics (or a PrimFloat primitive) disagrees with the real CPython: the float theorems are about a wrong specification"})
+    kinds = {}
+    for c in cases:
+        kk = c[0].split("(")[0] if "(" in c[0] and not c[0][0].isdigit() and c[0][0] != "-" else "arith/cmp"
+        kinds[kk] = kinds.get(kk, 0) + 1
+    return len(cases), bad, kinds, [c[0] for c in cases[:3]]
+
+
+def float_assumptions(ctx):
+    """PropsFloat.v prints its assumptions itself: they must all be kernel primitives"""
+    rc, out = vlib.coqc_file(vlib.COQ / "C04" / "PropsFloat.v")
+    names = set()
+    for line in out.split("\n"):
+        m = __import__("re").match(r"^([A-Za-z_][\w.']*)\s*:", line)
+        if m and m.group(1) != "Axioms":
+            names.add(m.group(1))
+    allowed = {"sub", "opp", "of_uint63", "normfr_mantissa", "mul", "ltb", "leb", "ldshiftexp", "frshiftexp", "float", "eqb",
+               "div", "add", "abs", "classify", "compare", "sqrt", "next_up", "next_down"}
+    bad = [n for n in names if not (n in allowed or n.startswith("PrimInt63.") or n.startswith("PrimFloat."))]
+    return rc, sorted(names), bad
 
 
 def run(ctx):
@@ -364,15 +447,15 @@ def run(ctx):
     new_viol = 0
     seen_known = set()
     for a, xs, exp, got in findings:
-        key = f"{a['id']}:{':'.join(str(int(x)) if not isinstance(x, bool) else str(x) for x in xs)}"
+        key = f"{a['id']}:{':'.join(keystr(x) for x in xs)}"
         detail = {"application": a["expr"], "operand_types": a["params"], "operands": [str(x) for x in xs],
                   "python_result_mod_2^64": str(exp), "value_under_emitted_hugr_ops": str(got),
                   "replay": f"@guppy def f({', '.join(f'a{j}: {t}' for j, t in enumerate(a['params']))}): return {a['expr']}  -- compile with /repo, run the emitted op on the operands"}
         if ctx.is_known(key):
             ctx.report(key, "counterexample", "known", detail)
             seen_known.add(key)
-        elif known_region(a["id"], xs):
-            continue      # inside a carved-out region; represented by its listed witness
+        elif known_region(a["id"], xs) or in_documented(a, xs, got):
+            continue      # inside a carved-out / documented region; represented by its listed witness
         else:
             new_viol += 1
             if new_viol <= 3:
@@ -381,6 +464,19 @@ def run(ctx):
         ctx.report("proof-broken:" + str(info["failed"]), "proof-broken", str(info["failed"]),
                    {"coq_error": vlib.CoqResult(False, info["log"]).error_excerpt(), "searched_applications": searched},
                    found_input=False)
+    # ---- float part: Coq's Python-side float spec vs CPython; assumptions of PropsFloat.v
+    fs_n, fs_bad, fs_kinds, fs_samples = 0, 0, {}, []
+    fa_names, fa_bad = [], []
+    if (vlib.COQ / "C04" / "Float64.vo").exists():
+        try:
+            fs_n, fs_bad, fs_kinds, fs_samples = spec_validation(ctx, 1800 if ctx.quick else 27000)
+        except RuntimeError as e:
+            ctx.report("float-spec:evaluation-failed", "correspondence", "Float64.v evaluation", {"error": str(e)[-800:]}, found_input=False)
+        if info["ok"]:
+            rc_f, fa_names, fa_bad = float_assumptions(ctx)
+            if rc_f != 0 or fa_bad:
+                ctx.report("proof-broken:PropsFloat.v", "proof-broken", "C04/PropsFloat.v",
+                           {"rc": rc_f, "non_primitive_assumptions": fa_bad}, found_input=False)
     # ---- spec text drift
     drift = []
     try:
@@ -397,15 +493,18 @@ def run(ctx):
         ["Coq 8.16.1 kernel incl. vm_compute",
          "coq/C04/Int64.v: HUGR arithmetic.int semantics written from the op descriptions (compared with hugr-py's int.json on each run)",
          "props/C04/tr_num.py: reading of decorators / operator tables / dispatch shapes; tools/repo_shim.py",
-         "float ops: abstract IEEE model, same function on both sides; no claim for int/int true division, int<->float comparison, float // % divmod",
+         "floats: PrimFloat kernel primitives (add sub mul div abs opp eqb ltb leb, conversions through frshiftexp/ldshiftexp) are taken as IEEE-754 binary64; coq/C04/Float64.v's floor/ceil/int<->float conversions and its model of CPython's float_divmod / long_true_divide / exact int<->float comparison are validated bit-exactly against the real CPython on every run (not proved); pow and round are uninterpreted (same function on both sides)",
+         "the failing-input search evaluates the emitted op tree with CPython's own IEEE float arithmetic",
          "expr_compiler / custom compilers are not modelled: only the emitted op tree is compared with the model"],
-        evaluations=compared + sum(1 for _ in findings) + searched, distinct_nontrivial=accepted,
+        evaluations=compared + sum(1 for _ in findings) + searched + fs_n, distinct_nontrivial=accepted,
         rule="an evaluation = one operator application (operator x operand types) compiled by /repo and compared with the model's tree, or one application searched on the boundary grid; non-trivial = application accepted by Guppy (has an op tree)",
         traces_validated_against_impl=compared, tree_compared=tree_compared, model_compiler_mismatches=mismatches,
         applications_total=len(apps), applications_compiled=len(chosen), accepted_by_model=accepted,
         boundary_operands=BOUND if False else {k: [str(x) for x in v] for k, v in BOUND.items()},
         differences_found=len(findings), differences_outside_known_regions=new_viol, known_witnesses_reproduced=sorted(seen_known),
         hugr_description_drift=drift,
+        float_spec_cases_vs_cpython=fs_n, float_spec_disagreements=fs_bad, float_spec_case_kinds=fs_kinds,
+        float_spec_samples=fs_samples, propsfloat_assumptions_kernel_primitives=fa_names,
         samples=[{"application": a["id"], "model": (model or {}).get(a["id"]), "compiler": impl[a["id"]].get("tree")} for a in chosen[:3]],
         notes=ctx.notes)
     return ctx.finish(LEVEL, cov, ["HUGR arithmetic.int/float/conversions op semantics as written in Int64.v / abstract float model",
